@@ -148,3 +148,76 @@ def coqchk(cx, sh):
     cx.cov['coqchk'] = r.stdout[-3000:]
     if r.returncode != 0 or 'Fatal' in r.stdout or 'Error' in r.stdout:
         cx.broken.append('coqchk:' + cx.prop)
+
+
+# ---------------------------------------------------------------- extra (implementation-only) explorations
+
+def extra_race(which):
+    def run(cx, sh):
+        r = sh('cd go && go build -race -tags verif -o ../build/xh_race ./cmd/xh', timeout=1200)
+        if r.returncode != 0:
+            cx.broken.append('correspondence:race-build')
+            cx.violation({'broken': 'race-enabled harness build failed', 'output': r.stdout[-2000:]}, nofail=True)
+            return
+        rounds = 4 if cx.tier == 'quick' else 120
+        for cmd in which:
+            rr = rounds * (5 if cmd == 'cacherace' else 1)
+            r = sh('ulimit -v 16000000; timeout %d ./build/xh_race %s %d %d' % (600 if cx.tier == 'quick' else 7000, cmd, cx.seed, rr), timeout=7200)
+            out = r.stdout
+            m = re.search(r'(?:evaluations|gets)=(\d+)', out)
+            if m:
+                cx.evaluations += int(m.group(1))
+                cx.nontrivial.add('race-run-%s-%s' % (cmd, m.group(1)))
+            cx.cov.setdefault('race_runs', []).append(dict(cmd=cmd, rounds=rr, goroutines=8, summary=[l for l in out.splitlines() if 'RUN' in l][:2]))
+            if 'DATA RACE' in out:
+                i = out.find('WARNING: DATA RACE')
+                cx.violation({'why': 'the Go race detector reported a data race', 'schedule': dict(cmd=cmd, seed=cx.seed, rounds=rr, goroutines=8),
+                              'report': out[i:i + 3000]})
+            elif 'MISMATCH' in out:
+                cx.violation({'why': 'a concurrent call returned something else than the sequential call', 'schedule': dict(cmd=cmd, seed=cx.seed, rounds=rr),
+                              'report': [l for l in out.splitlines() if l.startswith('MISMATCH')][:5]})
+            elif r.returncode != 0:
+                cx.violation({'why': 'concurrent run aborted (exit %d)' % r.returncode, 'schedule': dict(cmd=cmd, seed=cx.seed, rounds=rr), 'report': out[-3000:]})
+            if len(cx.samples) < 8:
+                cx.samples.append(dict(race_run=cmd, output=out[-300:]))
+    return run
+
+
+def extra_deep(cx, sh):
+    """every recursive construct nested 10^k deep, each in its own process"""
+    depths = [1000, 1025, 100000, 1000000] if cx.tier == 'quick' else [1000, 1023, 1024, 1025, 100000, 1000000, 10000000]
+    kinds = ['paren', 'seq', 'pred', 'func', 'minus', 'path', 'plus', 'union', 'filter', 'parenopen', 'predopen', 'dots', 'concat']
+    import subprocess
+    procs = []
+    for k in kinds:
+        for n in depths:
+            p = subprocess.Popen('ulimit -v 12000000; timeout 300 ./build/xh deep %s %d' % (k, n), shell=True, stdout=subprocess.PIPE,
+                                 stderr=subprocess.STDOUT, text=True, cwd=ROOT)
+            procs.append((k, n, p))
+            if len(procs) % 16 == 0:
+                for _, _, q in procs[-16:]:
+                    q.wait()
+    res = collections_counter()
+    for k, n, p in procs:
+        out, _ = p.communicate()
+        cx.evaluations += 1
+        line = [l for l in out.splitlines() if l.startswith('DEEP')]
+        if p.returncode != 0 or not line:
+            cx.violation({'why': 'Compile of a deeply nested expression did not return (exit status %s)' % p.returncode,
+                          'case': {'expr': '%s nested %d deep (xh deep %s %d)' % (k, n, k, n), 'kind': 'deep'}, 'go': out[-600:]})
+        else:
+            res[line[0].split('\t')[3]] += 1
+            cx.nontrivial.add('deep-%s-%d' % (k, n))
+            if n >= 100000 and len(cx.samples) < 10:
+                cx.samples.append(dict(deep=line[0]))
+    cx.cov['deep_nesting'] = dict(kinds=kinds, depths=depths, verdicts=dict(res))
+
+
+def collections_counter():
+    import collections
+    return collections.Counter()
+
+
+PROPS['C05'] = dict(corr=[], extra=[extra_race(['race', 'cacherace'])])
+PROPS['C06']['extra'] = [extra_deep]
+PROPS['C16']['extra'] = [extra_race(['cacherace'])]
